@@ -30,6 +30,7 @@ type c17Chip struct {
 	Fans     []int  `json:"fans"`     // channels with fanN_input
 	Temps    []int  `json:"temps"`    // indices with tempN_input
 	TempOnly []int  `json:"tempOnly"` // tempN features without an input file (tempN_max only)
+	Bare     bool   `json:"bare,omitempty"` // neither fans nor temperatures nor pwm controls: a battery / power supply with a voltage input only
 }
 
 type c17Tree struct {
@@ -70,6 +71,9 @@ func genC17Tree(r *rand.Rand) *c17Tree {
 		if len(c.Fans) == 0 && len(c.Temps) == 0 {
 			c.Temps = []int{1}
 		}
+		if n > 1 && r.Intn(6) == 0 {
+			c.Bare, c.Fans, c.Temps, c.TempOnly = true, nil, nil, nil
+		}
 		t.Chips = append(t.Chips, c)
 	}
 	for _, i := range r.Perm(n) {
@@ -90,6 +94,10 @@ func (t *c17Tree) materialise(root string) {
 		d := filepath.Join(root, c.Dir)
 		_ = os.MkdirAll(d, 0755)
 		_ = os.WriteFile(filepath.Join(d, "name"), []byte(c.Name+"\n"), 0644)
+		if c.Bare {
+			_ = os.WriteFile(filepath.Join(d, "in0_input"), []byte("12100\n"), 0644)
+			continue
+		}
 		for ch := 1; ch <= 6; ch++ {
 			// pwm controls exist for every channel, also where no fan input exists
 			w(filepath.Join(d, fmt.Sprintf("pwm%d", ch)))
